@@ -5,8 +5,8 @@
       connection instead, the queue untouched);
    3. a resume delivers the queue once, in order, and empties it; combined with 1:
       "dropped, stayed disconnected, resumed: the resume outputs exactly what was appended"
-      (when nothing queued closes the connection; 5. is the other case: the queue is still written
-      in full, then the connection is closed and the session is gone for good);
+      (when nothing queued closes the connection; 5. is the other case: the queue is written up to
+      the first closing message, then the connection is closed and the session is gone for good);
    4. bye and expiry are final for every continuation: session ids are never handed out twice.
 
    (Written when the model's alphabet contained no chat-refresh notice; it now does: enqueue keeps one.)
@@ -1249,16 +1249,7 @@ Lemma noconn_close_session h x : noconn (snd (close_session h x)).
 Proof. rewrite close_session_eq. cbn [snd]. apply noconn_app; [apply noconn_close_one|apply noconn_fold, noconn_close_one]. Qed.
 
 (* ------------------------------------------------------------------ a queued message that closes the connection *)
-(* the messages that close the connection they are written to (is_closing), for a session in `room`:
-   a bye, and a disinvite from the room the session is in *)
-Definition closing_in (room : option (N * N)) (m : smsg) : bool :=
-  match m with
-  | SBye _ => true
-  | SDisinvite r => match room with Some k => N.eqb (snd k) r | None => false end
-  | _ => false
-  end.
-Lemma queue_closes_eq s : queue_closes s = existsb (closing_in (s_room s)) (s_pending s).
-Proof. reflexivity. Qed.
+(* closing_in, queue_closes_eq, upto_closing_*: proofs/Hub_easy.v *)
 Lemma never_closing_in room m : never_closing m = true -> closing_in room m = false.
 Proof. destruct m; cbn; congruence. Qed.
 Lemma never_closing_queue room l : forallb never_closing l = true -> existsb (closing_in room) l = false.
@@ -1481,16 +1472,19 @@ Qed.
 (* ------------------------------------------------------------------ 5. a queued bye / disinvite: the resume delivers the queue, then the session ends *)
 (* When the queue holds a message that closes the connection it is written to (a bye, or a disinvite
    from the room the session is in: queue_closes), the resume still answers with the session id and
-   writes the whole queue in order; then the connection is closed and the session with it.  Nothing
-   else is written to any connection by the resume (the rest tells the backend / the media server),
-   and the session is final in the sense of 4. (found by a thorough-tier run: a disinvite queued for
-   a disconnected session, then a resume). *)
+   writes the queue in order up to and including the first such message (upto_closing; characterised
+   by upto_closing_spec in Hub_easy.v: the prefix that ends with the first closing message); what was
+   queued after it is not written (the close frame has been sent: seen on the real server in a
+   directed run).  Then the connection is closed and the session with it.  Nothing else is written
+   to any connection by the resume (the rest tells the backend / the media server), and the session
+   is final in the sense of 4. (found by a thorough-tier run: a disinvite queued for a disconnected
+   session, then a resume). *)
 Lemma resume_closing_queue h c cn n s :
   aget h.(h_conns) c = Some cn -> cn.(c_sess) = None -> get_sess h n = Some s ->
   is_virtual s.(s_kind) = false -> s.(s_conn) = None -> throttled h cn.(c_addr) ACT_RESUME = false ->
   queue_closes s = true ->
   let '(h', outs) := step h (OHello c (HResume (IdPriv n))) in
-  (exists rest, outs = ToConn c (SHello n (sess_userid h n s)) :: map (ToConn c) s.(s_pending) ++ Closed c :: rest /\ noconn rest) /\
+  (exists rest, outs = ToConn c (SHello n (sess_userid h n s)) :: map (ToConn c) (upto_closing s.(s_room) s.(s_pending)) ++ Closed c :: rest /\ noconn rest) /\
   get_sess h' n = None.
 Proof.
   intros Hc Hs Hn Hv Hcn Ht Hq. cbn [step]. rewrite Hc, Hs. cbn [do_hello]. hsimpl.
@@ -1508,7 +1502,7 @@ Theorem resume_closing_is_final q h c cn sid s :
   queue_closes s = true ->
   let o := OHello c (HResume (IdPriv sid)) in
   (exists rest, snd (step h o) =
-     ToConn c (SHello sid (sess_userid h sid s)) :: map (ToConn c) (s_pending s) ++ Closed c :: rest /\ noconn rest) /\
+     ToConn c (SHello sid (sess_userid h sid s)) :: map (ToConn c) (upto_closing (s_room s) (s_pending s)) ++ Closed c :: rest /\ noconn rest) /\
   get_sess (fst (step h o)) sid = None /\ unreferenced (fst (step h o)) sid /\
   final q (fst (stepx q h o)) sid.
 Proof.
@@ -1533,7 +1527,7 @@ Theorem drop_then_resume_closing q h0 c0 cn0 sid ops c cn :
   let o := OHello c (HResume (IdPriv sid)) in
   exists s, get_sess hj sid = Some s /\ s_conn s = None /\
   (exists rest, snd (step hj o) =
-     ToConn c (SHello sid (sess_userid hj sid s)) :: map (ToConn c) (appended q sid h0 (ODrop c0 :: ops)) ++ Closed c :: rest /\
+     ToConn c (SHello sid (sess_userid hj sid s)) :: map (ToConn c) (upto_closing (s_room s) (appended q sid h0 (ODrop c0 :: ops))) ++ Closed c :: rest /\
      noconn rest) /\
   get_sess (fst (step hj o)) sid = None /\ unreferenced (fst (step hj o)) sid /\
   final q (fst (stepx q hj o)) sid.
@@ -1562,7 +1556,7 @@ Theorem resume_after_segment_closing q h sid ops c cn :
   let o := OHello c (HResume (IdPriv sid)) in
   exists s, get_sess hj sid = Some s /\
   (exists rest, snd (step hj o) =
-     ToConn c (SHello sid (sess_userid hj sid s)) :: map (ToConn c) (pend h sid ++ appended q sid h ops) ++ Closed c :: rest /\
+     ToConn c (SHello sid (sess_userid hj sid s)) :: map (ToConn c) (upto_closing (s_room s) (pend h sid ++ appended q sid h ops)) ++ Closed c :: rest /\
      noconn rest) /\
   get_sess (fst (step hj o)) sid = None /\ unreferenced (fst (step hj o)) sid /\
   final q (fst (stepx q hj o)) sid.
